@@ -531,6 +531,13 @@ static int main_(int argc, char ** argv)
       if (second) c05_case(c, av, true);
       else c04_case(c, av, true);
     }
+    // the decade right above the usual small-angle switch, O(1) and large translations (cancellation shows here)
+    for (int k = 0; k < 16; ++k) {
+      const double th = 1.0001e-4 * std::pow(10.0, static_cast<double>(k) / 16.0);
+      auto av         = gen.tangent_theta(c.rng, th, 1 + (k % 2), 2, 9);
+      if (second) c05_case(c, av, true);
+      else c04_case(c, av, true);
+    }
     if (!second) {
       for (long i = 0; i < n / 4 + 2; ++i) c04_action_case(c, gen.element(c.rng, static_cast<int>(i % kNumElemStrata), static_cast<int>(i % 3)));
     }
